@@ -54,6 +54,9 @@
                                  datagrams with the same request sequence number and command on the wire
                                  ((Q) is false; the fault-free clauses X, S, O, C still hold on that run, which
                                  is why only a late reply makes the defect observable: the check withholds one)
+  * `source_is_safe_variant`, `source_cfg_safe`, `today_all_schedules`  TODAY's source is the safe variant of both
+                                 (stopper joins; number allocated inside the lock block), so the theorems above
+                                 hold for its configurations with no variant hypothesis left
   * `shipped_without_close_holds`  the variant AS SHIPPED satisfies all of the above as long as no thread
                                  closes the session (the close-free case: the theorems of the first version)
 
@@ -82,6 +85,27 @@ sequence-number allocation (inside the lock block or before it) are the model's 
 theorem source_shape : PyIpmi.Gen.Threads.shape =
     Shape.expected PyIpmi.Gen.Threads.shape.stopperJoins PyIpmi.Gen.Threads.shape.seqInLock := by
   decide
+
+/-- … and TODAY's source is the SAFE variant of both: the stopper joins the keep-alive thread and the
+sequence number is allocated inside the lock block.  The property theorems below are stated for `Cfg.Safe`
+configurations (resp. `seqLocked = true`); without this equation nothing in this file says that the tree is
+such a configuration (only the harness's probe did), and a regression to "set only" / "allocate before the
+lock" would leave every theorem building.  With it `source_cfg_safe` discharges the variant hypotheses for
+the configurations of today's source (`today_*` corollaries), and such a regression stops the build; the
+run's directed schedules (interval elapses just before the stopper; both threads load the counter before
+either stores) then produce the failing schedule. -/
+theorem source_is_safe_variant : PyIpmi.Gen.Threads.shape = Shape.expected true true := by
+  decide
+
+/-- a test configuration with the variant flags the translator read from today's source -/
+def ofSource (c : Cfg) : Cfg :=
+  { c with join := PyIpmi.Gen.Threads.shape.stopperJoins, seqLocked := PyIpmi.Gen.Threads.shape.seqInLock }
+
+theorem source_cfg_safe (c : Cfg) (hcmd : ∀ p ∈ c.threads, p.2 ≠ closeCmd) :
+    (ofSource c).Safe ∧ (ofSource c).seqLocked = true := by
+  have h1 : PyIpmi.Gen.Threads.shape.stopperJoins = true := by rw [source_is_safe_variant]; rfl
+  have h2 : PyIpmi.Gen.Threads.shape.seqInLock = true := by rw [source_is_safe_variant]; rfl
+  exact ⟨⟨Or.inl (by simp [ofSource, h1]), by simpa [ofSource] using hcmd⟩, by simp [ofSource, h2]⟩
 
 theorem inv_all_schedules (c : Cfg) (hc : c.Safe) (hs : c.sessSeq ≤ 0xffffffff) (sched : List Nat) :
     Inv (run (init c) sched) ∧ Tear (run (init c) sched) :=
@@ -187,6 +211,17 @@ theorem late_reply_cannot_match (c : Cfg) (hl : c.seqLocked = true) (hc : c.Safe
   have hh := hq.holder t th h hown
   simp only [HolderSeq, hp] at hh
   exact hh.2 r hr
+
+/-- **Today's source, no variant hypothesis left**: for every number of threads, calls and keep-alive ticks,
+with or without a closing thread, every schedule — the monitor (clauses X, S, O, C, Q) accepts the run and
+consecutive transmissions carry different request sequence numbers. -/
+theorem today_all_schedules (c : Cfg) (hcmd : ∀ p ∈ c.threads, p.2 ≠ closeCmd) (hs : c.sessSeq ≤ 0xffffffff)
+    (sched : List Nat) :
+    accepts (run (init (ofSource c)) sched).wireChron (run (init (ofSource c)) sched).results = true
+    ∧ rqDistinct (run (init (ofSource c)) sched).wireChron = true := by
+  obtain ⟨hsafe, hl⟩ := source_cfg_safe c hcmd
+  have hs' : (ofSource c).sessSeq ≤ 0xffffffff := by simpa [ofSource] using hs
+  exact ⟨monitor_accepts_all_schedules _ hsafe hs' sched, rq_seq_distinct_on_wire _ hl hsafe hs' sched⟩
 
 /-- two threads, one Get Device ID each, session sequence starting at 7; sequence number allocated before
 the lock (as shipped) -/
